@@ -152,8 +152,8 @@ enum Req { Exec(usize), Compile(usize) }
 struct Obs { class: String, output: String, detail: String, heap_objs: i64, unit: Option<CodeSnap> }
 
 #[cfg(vbxq_aelys_lang_verif)]
-fn do_request(p: &mut Pipeline, r: Req, pool: &[String], same_name: bool) -> Obs {
-    let nm = |i: usize| if same_name { "main".to_string() } else { format!("src{}", i) };
+fn do_request(p: &mut Pipeline, r: Req, pool: &[String], names: &[String]) -> Obs {
+    let nm = |i: usize| names[i].clone();
     use aelys_runtime::verif;
     verif::sink_install();
     verif::budget_set(3_000_000);
@@ -303,7 +303,7 @@ impl<'a> Gen<'a> {
 // ------------------------------------------------------------------------------------------
 // histories
 
-struct Hist { same_name: bool, kind: PKind, opt: u32, pool: Vec<String>, feats: Vec<Vec<&'static str>>, reqs: Vec<Req>, origin: String }
+struct Hist { names: Vec<String>, kind: PKind, opt: u32, pool: Vec<String>, feats: Vec<Vec<&'static str>>, reqs: Vec<Req>, origin: String }
 
 fn hist_string(reqs: &[Req]) -> String {
     reqs.iter().map(|r| match r { Req::Exec(i) => format!("E{}", i), Req::Compile(i) => format!("C{}", i) }).collect::<Vec<_>>().join(" ")
@@ -343,7 +343,8 @@ fn gen_hist(rng: &mut Rng) -> Hist {
         let compile = match kind { PKind::Compilation => true, _ => if outside { only_compile } else { rng.chance(1, 4) } };
         reqs.push(if compile { Req::Compile(i) } else { Req::Exec(i) });
     }
-    Hist { same_name: rng.chance(1, 2), kind, opt, pool, feats, reqs, origin: if outside { "generated-outside-known".into() } else { "generated".into() } }
+    let names: Vec<String> = if rng.chance(1, 2) { pool.iter().map(|_| "main".to_string()).collect() } else { (0..pool.len()).map(|i| format!("src{}", i)).collect() };
+    Hist { names, kind, opt, pool, feats, reqs, origin: if outside { "generated-outside-known".into() } else { "generated".into() } }
 }
 
 /// corpus format: `#pipeline <kind> <opt>` / `#history E0 E0 C1` / `#source` + text (repeated)
@@ -355,8 +356,20 @@ fn read_corpus(path: &str) -> Option<Hist> {
     let mut pool: Vec<String> = Vec::new();
     let mut in_src = false;
     let mut same_name = false;
+    let mut given: Vec<(usize, String)> = Vec::new();
     for line in text.lines() {
         if line.trim() == "#names same" { same_name = true; in_src = false; continue; }
+        if let Some(r) = line.strip_prefix("#srcname ") {
+            let mut it = r.splitn(2, ' ');
+            if let (Some(i), Some(n)) = (it.next().and_then(|x| x.parse::<usize>().ok()), it.next()) { given.push((i, n.to_string())); }
+            in_src = false; continue;
+        }
+        if let Some(r) = line.strip_prefix("#sourcehex ") {
+            // exact bytes (CR, trailing blanks, missing final newline survive the corpus file)
+            let bytes: Vec<u8> = (0..r.trim().len() / 2).filter_map(|k| u8::from_str_radix(&r.trim()[2 * k..2 * k + 2], 16).ok()).collect();
+            pool.push(String::from_utf8_lossy(&bytes).to_string());
+            in_src = false; continue;
+        }
         if let Some(r) = line.strip_prefix("#pipeline ") {
             let mut it = r.split_whitespace();
             kind = PKind::parse(it.next().unwrap_or("standard"));
@@ -376,7 +389,9 @@ fn read_corpus(path: &str) -> Option<Hist> {
     }
     if pool.is_empty() || reqs.iter().any(|r| match r { Req::Exec(i) | Req::Compile(i) => *i >= pool.len() }) { return None; }
     let feats = pool.iter().map(|_| vec!["corpus"]).collect();
-    Some(Hist { same_name, kind, opt, pool, feats, reqs, origin: path.to_string() })
+    let mut names: Vec<String> = (0..pool.len()).map(|i| if same_name { "main".to_string() } else { format!("src{}", i) }).collect();
+    for (i, n) in given { if i < names.len() { names[i] = n; } }
+    Some(Hist { names, kind, opt, pool, feats, reqs, origin: path.to_string() })
 }
 
 /// Everything of a compiled function except the heap, copied out before the unit is run
@@ -422,24 +437,24 @@ fn diff_code(a: &CodeSnap, b: &CodeSnap) -> (usize, usize, bool) {
 
 #[cfg(vbxq_aelys_lang_verif)]
 fn run_hist(hid: usize, h: &Hist) {
-    println!("H\t{}\t{}\t{}\t{}\t{}\t{}\t{}", hid, h.kind.name(), h.opt, hist_string(&h.reqs), h.pool.len(), esc(&h.origin), h.same_name as u8);
+    println!("H\t{}\t{}\t{}\t{}\t{}\t{}\t{}", hid, h.kind.name(), h.opt, hist_string(&h.reqs), h.pool.len(), esc(&h.origin), 0);
     for (i, s) in h.pool.iter().enumerate() {
-        println!("S\t{}\t{}\t{}\t{}", hid, i, h.feats[i].join(","), esc(s));
+        println!("S\t{}\t{}\t{}\t{}\t{}", hid, i, h.feats[i].join(","), esc(s), esc(&h.names[i]));
     }
     let mut cached = make_pipeline(h.kind, h.opt, true);
     let mut nocache = make_pipeline(h.kind, h.opt, true);
     let mut nocomp = make_pipeline(h.kind, h.opt, false);
     for (ri, &r) in h.reqs.iter().enumerate() {
-        let a = do_request(&mut cached, r, &h.pool, h.same_name);
+        let a = do_request(&mut cached, r, &h.pool, &h.names);
         nocache.clear_cache();
-        let b = do_request(&mut nocache, r, &h.pool, h.same_name);
-        let d = do_request(&mut nocomp, r, &h.pool, h.same_name);
+        let b = do_request(&mut nocache, r, &h.pool, &h.names);
+        let d = do_request(&mut nocomp, r, &h.pool, &h.names);
         let mut fresh = make_pipeline(h.kind, h.opt, true);
-        let c = do_request(&mut fresh, r, &h.pool, h.same_name);
+        let c = do_request(&mut fresh, r, &h.pool, &h.names);
         // heap constants owned by the compiled unit of this source (measured on a fresh compile)
         let si = match r { Req::Exec(i) | Req::Compile(i) => i };
         let mut cp = make_pipeline(h.kind, h.opt, true);
-        let objs = match guarded(std::panic::AssertUnwindSafe(|| cp.compile_str(&format!("src{}", si), &h.pool[si]).map(|(_, hp)| hp.object_count() as i64))) {
+        let objs = match guarded(std::panic::AssertUnwindSafe(|| cp.compile_str(&h.names[si], &h.pool[si]).map(|(_, hp)| hp.object_count() as i64))) {
             Ok(Ok(n)) => n,
             _ => -1,
         };
@@ -460,6 +475,88 @@ fn run_hist(hid: usize, h: &Hist) {
                  objs, prior, prior_exec, cdiff,
                  esc(&a.detail.chars().take(if flag("--dump") { 100000 } else { 300 }).collect::<String>()),
                  esc(&c.detail.chars().take(if flag("--dump") { 100000 } else { 300 }).collect::<String>()));
+    }
+}
+
+
+// ------------------------------------------------------------------------------------------
+// families of near-identical sources under the SAME name (cache-key injectivity)
+
+/// variants of one program that differ only in line endings, trailing blanks, a final newline,
+/// blank lines and the content of a multi-line string literal; plus the base text under another name
+fn gen_family(rng: &mut Rng) -> (Vec<String>, Vec<String>, Vec<Vec<&'static str>>) {
+    let w = |rng: &mut Rng| format!("{}{}", rng.pick(&["ab", "k", "xy z", "q", "end", "0"]), rng.below(10));
+    let (l1, l2, l3, lx) = (w(rng), w(rng), w(rng), format!("{}!", w(rng)));
+    let pre = rng.range_i64(-50, 50);
+    // literal contents of the variants (what the string must be when the variant is compiled on its own)
+    let contents: Vec<String> = vec![
+        format!("{}\n{}\n{}", l1, l2, l3),          // 1 base
+        format!("{}\r\n{}\r\n{}", l1, l2, l3),    // 2 CRLF
+        format!("{}  \n{}\n{}", l1, l2, l3),         // 3 trailing blanks
+        format!("{}\n\n{}\n{}", l1, l2, l3),       // 4 blank line inside
+        format!("{}\n{}\n{}", l1, lx, l3),          // 5 other content
+        format!("{}\n{}\t\n{}", l1, l2, l3),       // 6 trailing tab
+    ];
+    let chain: String = contents.iter().enumerate().map(|(i, c)| format!("if s == \"{}\" {{ code = {} }}\n", c, i + 1)).collect();
+    let text = |lit: &str, stmt_tail: &str, between: &str| -> String {
+        format!("let pre = {pre}{stmt_tail}\n{between}let s = \"{lit}\"\nfn g(k) {{ return k + pre }}\nlet mut code = 0\n{chain}{between}code * 100 + g(1)\n")
+    };
+    let lit = |a: &str, b: &str, c: &str| format!("{}\n{}\n{}", a, b, c);     // real newlines inside the literal
+    let base = text(&lit(&l1, &l2, &l3), "", "");
+    let mut pool = vec![
+        base.clone(),
+        base.replace('\n', "\r\n"),
+        text(&format!("{}  \n{}\n{}", l1, l2, l3), "   ", ""),
+        base.trim_end_matches('\n').to_string(),
+        text(&lit(&l1, &l2, &l3), "", "\n\n") + "\n\n",
+        text(&format!("{}\n\n{}\n{}", l1, l2, l3), "", ""),
+        text(&lit(&l1, &lx, &l3), "", ""),
+        text(&format!("{}\n{}\t\n{}", l1, l2, l3), "", ""),
+        base.clone(),
+    ];
+    let mut names: Vec<String> = pool.iter().map(|_| "fam.aelys".to_string()).collect();
+    let last = names.len() - 1;
+    names[last] = "other.aelys".to_string();
+    let feats: Vec<Vec<&'static str>> = vec![vec!["family-base"], vec!["family-crlf"], vec!["family-trailing-blanks"], vec!["family-no-final-newline"],
+        vec!["family-blank-lines-outside"], vec!["family-blank-line-in-literal"], vec!["family-other-literal"], vec!["family-trailing-tab"], vec!["family-same-content-other-name"]];
+    // a broken member now and then (error results must not leak across keys either)
+    if rng.chance(1, 4) { pool[6] = pool[6].replace("fn g(k)", "fn g(k"); }
+    (pool, names, feats)
+}
+
+#[cfg(vbxq_aelys_lang_verif)]
+fn run_families(rng: &mut Rng, n: usize, hid: &mut usize) {
+    for fid in 0..n {
+        let (pool, names, feats) = gen_family(rng);
+        let kind = match rng.below(4) { 0 => PKind::Compilation, 1 => PKind::Stdlib, _ => PKind::Standard };
+        let opt = *rng.pick(&[0u32, 1, 2, 3]);
+        let k = pool.len();
+        let mk = |reqs: Vec<Req>, origin: &str| Hist { names: names.clone(), kind, opt, pool: pool.clone(), feats: feats.clone(), reqs, origin: origin.to_string() };
+        // every ordered pair against one pipeline
+        for i in 0..k { for j in 0..k { if i != j {
+            let reqs = if kind == PKind::Compilation || (i + j + fid) % 5 == 0 { vec![Req::Compile(i), Req::Compile(j)] } else { vec![Req::Exec(i), Req::Exec(j)] };
+            run_hist(*hid, &mk(reqs, "family-pair")); *hid += 1;
+        }}}
+        // a few complete orders
+        for _ in 0..3 {
+            let mut order: Vec<usize> = (0..k).collect();
+            for a in (1..k).rev() { let b = rng.below(a as u64 + 1) as usize; order.swap(a, b); }
+            let reqs = order.iter().map(|&i| if kind == PKind::Compilation || rng.chance(1, 4) { Req::Compile(i) } else { Req::Exec(i) }).collect();
+            run_hist(*hid, &mk(reqs, "family-order")); *hid += 1;
+        }
+        // cache-key injectivity probe through the public API: a cacheable probe stage must run again
+        // for every request whose (name, content) differs from the one before
+        for i in 0..k { for j in 0..k { if i != j && (names[i] != names[j] || pool[i] != pool[j]) {
+            let log = Rc::new(RefCell::new(Vec::new()));
+            let mut p = Pipeline::new();
+            p.add_stage(Box::new(SynStage { spec: SynSpec { name: "lexer", cacheable: true, counter: false, acts: vec![Act::Tokens] }, idx: 0, runs: 0, log: log.clone() }));
+            p.add_stage(Box::new(SynStage { spec: SynSpec { name: "vm", cacheable: false, counter: false, acts: vec![Act::Value] }, idx: 1, runs: 0, log: log.clone() }));
+            let _ = p.execute_str(&names[i], &pool[i]);
+            log.borrow_mut().clear();
+            let _ = p.execute_str(&names[j], &pool[j]);
+            let ran_probe = log.borrow().iter().any(|(s, _)| *s == 0);
+            println!("K\t{}\t{}\t{}\t{}\t{}\t{}", fid, i, j, (!ran_probe) as u8, feats[i][0], feats[j][0]);
+        }}}
     }
 }
 
@@ -827,6 +924,8 @@ fn hist_main() {
             run_hist(hid, &h);
             hid += 1;
         }
+        let mut frng = Rng::new(seed ^ 0xFA);
+        run_families(&mut frng, arg_u64("--families", 0) as usize, &mut hid);
     }).unwrap();
     handle.join().unwrap();
 }
